@@ -119,8 +119,10 @@ func runC18(c *core.Ctx) {
 							if !isLoad || noSpace == nil || ld.X != ssa.Value(noSpace) {
 								good = false
 							}
-							if k, isC := core.ConstInt(ret.Results[0]); !isC || k != 0 {
-								good = false
+							if len(ret.Results) > 1 {
+								if k, isC := core.ConstInt(ret.Results[0]); !isC || k != 0 {
+									good = false
+								}
 							}
 							return core.Barrier
 						}
@@ -186,7 +188,15 @@ func runC18(c *core.Ctx) {
 					"the caller-context state is Done() of the function's context parameter", "the caller-context state does not listen on the context parameter handed in by the caller")
 			}
 		}
-		// callers of E: Ctx* pass own ctx; others pass context.Background()
+	}
+	// callers of every ctx-forwarding function: Ctx* pass own ctx; others pass context.Background()
+	for _, E := range e.ctxForwarders() {
+		ctxIdx := -1
+		for i, prm := range E.Params {
+			if core.NamedIs(prm.Type(), "context", "Context") {
+				ctxIdx = i
+			}
+		}
 		for _, caller := range p.Funcs {
 			core.AllInstrs(caller, func(in ssa.Instruction) {
 				cc := core.CallCommon(in)
@@ -236,7 +246,7 @@ func runC18(c *core.Ctx) {
 			if cc == nil || cc.IsInvoke() {
 				return false
 			}
-			for _, E := range r.Enqueuers {
+			for _, E := range e.ctxForwarders() {
 				if cc.StaticCallee() == E {
 					for i, prm := range E.Params {
 						if core.NamedIs(prm.Type(), "context", "Context") && i < len(cc.Args) && core.ParamOf(fn, cc.Args[i]) == ctxIdx {
@@ -424,4 +434,50 @@ func isChanOfBytesT(t types.Type) bool {
 	}
 	b, ok := s.Elem().Underlying().(*types.Basic)
 	return ok && b.Kind() == types.Byte
+}
+
+// ctxForwarders: the enqueueing functions plus every unexported channel method that hands its own context
+// parameter on to one of them (asyncWrite -> enqueue helper).
+func (e *ev) ctxForwarders() []*ssa.Function {
+	set := map[*ssa.Function]bool{}
+	var out []*ssa.Function
+	add := func(f *ssa.Function) {
+		if !set[f] {
+			set[f] = true
+			out = append(out, f)
+		}
+	}
+	for _, E := range e.r.Enqueuers {
+		add(E)
+	}
+	for changed := true; changed; {
+		changed = false
+		for _, fn := range e.p.Funcs {
+			if set[fn] || fn.Parent() != nil || !e.isChanMethod(fn) || (fn.Object() != nil && fn.Object().Exported()) {
+				continue
+			}
+			own := -1
+			for i, prm := range fn.Params {
+				if core.NamedIs(prm.Type(), "context", "Context") {
+					own = i
+				}
+			}
+			if own < 0 {
+				continue
+			}
+			core.AllInstrs(fn, func(in ssa.Instruction) {
+				cc := core.CallCommon(in)
+				if cc == nil || cc.IsInvoke() || !set[cc.StaticCallee()] {
+					return
+				}
+				for _, a := range cc.Args {
+					if core.ParamOf(fn, a) == own && !set[fn] {
+						add(fn)
+						changed = true
+					}
+				}
+			})
+		}
+	}
+	return out
 }
